@@ -152,3 +152,28 @@ theorem run_ok_iff {g : Grammar T N} {A : Auto T N} (hs : Sound g A) (hc : Compl
 
 end LR
 end KikiVerif
+
+namespace KikiVerif
+namespace LR
+variable {T N P : Type}
+
+/-- a finished run of the loop is a sequence of continuing steps followed by the final step -/
+theorem steps_of_runCfg {g : Grammar T N} {A : Auto T N} :
+    ∀ fuel (c : Cfg T P) r cf, runCfg g A fuel c = some (r, cf) → Steps g A c cf ∧ step g A cf = r := by
+  intro fuel
+  induction fuel with
+  | zero => intro c r cf h; simp [runCfg] at h
+  | succ k ih =>
+    intro c r cf h
+    simp only [runCfg] at h
+    cases hstep : step g A c with
+    | cont c' =>
+      rw [hstep] at h
+      obtain ⟨h1, h2⟩ := ih c' r cf h
+      exact ⟨.head hstep h1, h2⟩
+    | ok t => rw [hstep] at h; cases h; exact ⟨.refl _, hstep⟩
+    | err => rw [hstep] at h; cases h; exact ⟨.refl _, hstep⟩
+    | panic => rw [hstep] at h; cases h; exact ⟨.refl _, hstep⟩
+
+end LR
+end KikiVerif
